@@ -242,9 +242,37 @@ package lang
 // $varString(table, name): the string form stored for that variable (trusted getter contract;
 // the lookup order itself is C11's subject).
 //@ spec $varString(v int, name string) string
-//@ func (*Variables).GetString [C08] trusted
+//@ func (*Variables).GetString [C11]
+//@   check none
 //@   modifies nothing
-//@   ensures imp(result1 == nil, result == $varString(v, path))
+//@   ensures-trusted imp(result1 == nil, result == $varString(v, path))
+// (C11) a dotted path `$root.prop`: the root is looked up by getValue - the one scoped lookup, which also
+// knows the reserved roots GLOBAL / ENV / MODULE - and the property is taken from THAT value. No other
+// variable table is consulted, so `$GLOBAL.x` never shows a local x.
+//@   at call (*Variables).getValue#* modifies nothing
+//@   at call (*Variables).getString#* modifies nothing
+//@   at call (*Variables).getDataType#* modifies nothing
+//@   at call (*Variables).GetDataType#* modifies nothing
+//@   at call ElementLookup#* modifies nothing
+//@   at call MarshalData#* modifies nothing
+//@   at call ConvertGoType#* modifies nothing
+//@   at call errVar*#* modifies nothing
+//@   at call (*Variables).getValue#* assert arg0 == v && arg1 == split[0]
+//@   at call ElementLookup#* assert arg0 == ret("(*Variables).getValue#1", 0) && ret("(*Variables).getValue#1", 1) == nil
+//@   at call (*Variables).getString#* assert arg0 == v && ((path == "." && arg1 == _VAR_DOT) || (path != "." && len(split) == 1 && arg1 == split[0]))
+//@   ensures imp(path != "." && len(split) > 1 && result1 == nil, called("ElementLookup") && called("(*Variables).getValue") && !called("(*Variables).getString"))
+//@   ensures imp(path == "." || len(split) == 1, called("(*Variables).getString") && !called("(*Variables).getValue"))
+// the value-mode twin
+//@ func (*Variables).GetValue [C11]
+//@   check none
+//@   at call (*Variables).getValue#* modifies nothing
+//@   at call (*Variables).getDataType#* modifies nothing
+//@   at call ElementLookup#* modifies nothing
+//@   at call errVar*#* modifies nothing
+//@   at call (*Variables).getValue#* assert arg0 == v && ((path == "." && arg1 == _VAR_DOT) || (path != "." && arg1 == split[0]))
+//@   at call ElementLookup#* assert arg0 == ret("(*Variables).getValue#3", 0) && ret("(*Variables).getValue#3", 1) == nil
+//@   ensures imp(path != "." && len(split) > 1 && result1 == nil, called("ElementLookup") && result == ret("ElementLookup#1", 0))
+//@   ensures called("(*Variables).getValue") || (path != "." && len(split) == 0)
 
 // ---- C33: redirections (lang/redirection.go, createProcess) ---------------------------------------------
 //@ spec $isPrefixed(n string) bool = (len(n) > 5 && n[0:5] == "test_") || (len(n) > 6 && n[0:6] == "state_") || (len(n) > 4 && (n[0:4] == "env:" || n[0:4] == "fid:" || n[0:4] == "pid:"))
